@@ -137,7 +137,7 @@ class TlcResult:
 
 
 def run_tlc(spec, cfg, wd, env=None, workers=1, simulate=None, depth=None, seed=None, timeout=900,
-            dfs=False, coverage=False, heap=None, extra=None, deadlock=None):
+            dfs=False, coverage=False, heap=None, extra=None, deadlock=None, keep_one_in=1):
     """Runs TLC on spec/<spec>.tla with <cfg> (a path or a cfg text).  Returns TlcResult."""
     os.makedirs(wd, exist_ok=True)
     if "\n" in cfg or not os.path.exists(cfg):
@@ -188,8 +188,13 @@ def run_tlc(spec, cfg, wd, env=None, workers=1, simulate=None, depth=None, seed=
     r.out = p.stdout
     shutil.rmtree(meta, ignore_errors=True)
     kept = []
+    r.emitted = 0
+    import zlib
     for line in p.stdout.splitlines():
         if line.startswith('"@@'):
+            r.emitted += 1
+            if keep_one_in > 1 and zlib.crc32(line.encode()) % keep_one_in:
+                continue        # deterministic thinning of very large enumerations (the count stays in r.emitted)
             try:
                 r.records.append(json.loads(json.loads(line)[2:]))
             except Exception as ex:  # noqa
@@ -258,6 +263,9 @@ class Verdict:
 
     def report(self, fingerprint, detail, replay_item):
         """fingerprint: short abstract string; detail: dict; replay_item: what ./check --replay needs."""
+        if "outcome=Skipped" in fingerprint:
+            self.skipped = getattr(self, "skipped", 0) + 1      # circuit breaker of the worker pool: not evaluated
+            return "skipped"
         for k in self.known:
             if re.search(k["fingerprint"], fingerprint):
                 self.known_hits[k["id"]] = self.known_hits.get(k["id"], 0) + 1
@@ -292,6 +300,9 @@ class Verdict:
             "violations": sum(self.fp_seen.values()),
             "known_findings_hit": self.known_hits,
         }
+        if getattr(self, "skipped", 0):
+            ev["items_skipped_after_repeated_hangs_or_crashes"] = self.skipped
+            log("note: %d items were skipped by the circuit breaker after repeated hangs/crashes" % self.skipped)
         os.makedirs(EVIDENCE, exist_ok=True)
         with open(os.path.join(EVIDENCE, self.prop + ".json"), "w") as f:
             json.dump(ev, f, indent=1, ensure_ascii=False)
